@@ -231,7 +231,7 @@ def build_oracle(flavour="full"):
         return False, log
     main = "main_full.ml" if flavour == "full" else "main_spec.ml"
     others = ["full_cmds.ml"] if flavour == "full" else []
-    mls_src = ["util.ml", "spec_cmds.ml"] + [o for o in others if os.path.exists(os.path.join(VERIF, "oracle", o))] + [main]
+    mls_src = ["util.ml", "spec_cmds.ml", "sim_cmds.ml"] + [o for o in others if os.path.exists(os.path.join(VERIF, "oracle", o))] + [main]
     deps = [os.path.join(COQ, f) for f in closure + [vfile]] + [os.path.join(VERIF, "oracle", m) for m in mls_src]
     d = sha_files([p for p in deps if os.path.exists(p)])
     exe = os.path.join(odir, "oracle")
